@@ -87,9 +87,9 @@ Section Transfer.
     destruct (split_known (ptree p) hist) as [nw parent] eqn:S.
     destruct nw as [|n0 nw']; [discriminate|].
     destruct (negb _ && illegal_conflict _ _ _ _ _ _) eqn:C.
-    - destruct (negb res); [discriminate|].
+    - destruct res as [f|]; [|discriminate].
       destruct (dcur (update_flags (ptree p))) as [l|]; [|discriminate].
-      destruct (local_wins _ _ _ _).
+      destruct (f _ _ _ _ _ _) as [| |mb].
       + destruct (local_wins_rewrite mkdig l _ _ hist) as [[h' d'] b'] eqn:LW.
         destruct (tombstone_local mkdig p l _) as [p1|] eqn:TL; [|discriminate].
         destruct (finish_put p1 h' d' b') as [p2 st2] eqn:F.
@@ -104,6 +104,12 @@ Section Transfer.
         pose proof (tombstone_local_inv mkdig _ _ _ _ T TL) as T1.
         apply (finish_put_all p1 hist del b p' T1 G F).
         destruct Hx as [I | Cx]; [left; auto | right; eapply tombstone_local_mono; eauto].
+      + destruct (tombstone_local mkdig p l _) as [p1|] eqn:TL; [|discriminate].
+        destruct (finish_put p1 (mkid (hd_error hist) mb :: hist) del mb) as [p2 st2] eqn:F.
+        destruct st2; try discriminate. inversion H; subst p2.
+        pose proof (tombstone_local_inv mkdig _ _ _ _ T TL) as T1.
+        apply (finish_put_all p1 _ del mb p' T1 (ghist_ext mkdig _ mb G) F).
+        destruct Hx as [I | Cx]; [left; right; auto | right; eapply tombstone_local_mono; eauto].
     - apply (finish_put_all p hist del b p' T G H). exact Hx.
   Qed.
 
@@ -123,14 +129,16 @@ Section Transfer.
     destruct (split_known (ptree p) hist) as [nw parent].
     destruct nw as [|n0 nw']; [inversion H; auto|].
     destruct (negb _ && illegal_conflict _ _ _ _ _ _).
-    - destruct (negb res); [inversion H; auto|].
+    - destruct res as [f|]; [|inversion H; auto].
       destruct (dcur (update_flags (ptree p))) as [l|]; [|inversion H; auto].
-      destruct (local_wins _ _ _ _).
+      destruct (f _ _ _ _ _ _) as [| |mb].
       + destruct (local_wins_rewrite mkdig l _ _ hist) as [[h' d'] b'].
         destruct (tombstone_local mkdig p l _) as [p1|]; [|inversion H; auto].
         destruct (finish_put p1 h' d' b') as [p2 st2]. destruct st2; inversion H; subst; congruence.
       + destruct (tombstone_local mkdig p l _) as [p1|]; [|inversion H; auto].
         destruct (finish_put p1 hist del b) as [p2 st2]. destruct st2; inversion H; subst; congruence.
+      + destruct (tombstone_local mkdig p l _) as [p1|]; [|inversion H; auto].
+        destruct (finish_put p1 _ del mb) as [p2 st2]. destruct st2; inversion H; subst; congruence.
     - eapply finish_put_unchanged; eauto.
   Qed.
 
